@@ -47,7 +47,8 @@ Section Take.
         same.
     - destruct (ph s) eqn:Eph; try discriminate;
         destruct (find j (works s)) as [[| | | |]|] eqn:Ef; try discriminate; destruct stage as [|[|?]]; try discriminate.
-      all: try (destruct (has_term c); injection H as <-; same).
+      all: try (destruct (has_term c); repeat match type of H with (match ?b with _ => _ end) = _ => destruct b eqn:?; try discriminate end; injection H as <-;
+                first [same | (repeat split; cbn; auto; try discriminate; intros _; right; right; discriminate)]; fail).
       all: cbv zeta in H.
       all: set (s1 := set_works s (setw j WDone (works s))) in *.
       all: assert (I1 : TInv n s1) by same.
